@@ -1,1 +1,622 @@
-(* Proofs/Vector.v -- stub, to be filled in *)
+(* Proofs/Vector.v -- lemmas about Model/Vector.v and Model/VecOps.v over an abstract arithmetic (C15):
+   range reductions, dot product laws over a ring, linspace end points over a field, and the pointwise
+   list specification of every step of an edit history. *)
+From Coq Require Import List Arith Lia Permutation Sorted Ring_theory Ring Field_theory Field Bool.
+From OV Require Import Base.Panic Base.Arith Base.Flat Model.Complex Model.Vector Model.VecOps Proofs.ParDot.
+Import ListNotations.
+
+(* ------------------------------------------------------------------ list facts *)
+Lemma nth_skipn_add {X} (l : list X) s k d : nth k (skipn s l) d = nth (s + k) l d.
+Proof.
+  revert l; induction s as [|s IH]; intros l; cbn [skipn plus]; auto.
+  destruct l as [|h t]; [destruct k; reflexivity|]. cbn [nth]. apply IH.
+Qed.
+
+Lemma firstn_S_snoc {X} (l : list X) n d : n < length l -> firstn (S n) l = firstn n l ++ [nth n l d].
+Proof.
+  revert l; induction n as [|n IH]; intros [|h t] H; cbn in H; try lia; cbn [firstn nth app]; auto.
+  f_equal. apply IH. lia.
+Qed.
+
+Lemma nth_firstn_lt {X} (l : list X) n i d : i < n -> nth i (firstn n l) d = nth i l d.
+Proof.
+  revert l i; induction n as [|n IH]; intros l i H; [lia|].
+  destruct l as [|h t]; [now rewrite firstn_nil|]. destruct i; cbn; auto. apply IH; lia.
+Qed.
+
+Lemma nth_repeat_lt {X} (x d : X) n i : i < n -> nth i (repeat x n) d = x.
+Proof. revert i; induction n as [|n IH]; intros [|i] H; cbn; auto; try lia. apply IH; lia. Qed.
+
+Lemma nth_rev_last {X} (l : list X) x d : nth (length l) (l ++ [x]) d = x.
+Proof. rewrite app_nth2 by lia. now rewrite Nat.sub_diag. Qed.
+
+Section Generic.
+Context {A : Arith}.
+Notation T := (T A).
+
+(* ------------------------------------------------------------------ sum_slice / product_slice *)
+Lemma fold_add_firstn (l : list T) n : n <= length l ->
+  fold_left add (firstn n l) zero = sum_n n (fun k => nth k l zero).
+Proof.
+  induction n as [|n IH]; intros H; [reflexivity|].
+  rewrite (firstn_S_snoc l n zero) by lia. rewrite fold_left_app. cbn [fold_left sum_n].
+  now rewrite IH by lia.
+Qed.
+
+(* value, for every in-range pair, and the exact panic condition (the three guards of the code) *)
+Lemma sum_slice_spec_lemma (v : list T) s e :
+  (s <= e -> e < length v ->
+     sum_slice v s e = Ok (sum_n (e - s + 1) (fun k => nth (s + k) v zero))) /\
+  (e < s \/ length v <= e -> sum_slice v s e = Panic Guard).
+Proof.
+  unfold sum_slice, slice. split.
+  - intros Hse He.
+    destruct (Nat.ltb_spec e s); [lia|].
+    destruct (Nat.leb_spec (length v) s); [lia|].
+    destruct (Nat.leb_spec (length v) e); [lia|].
+    f_equal. replace (e + 1 - s) with (e - s + 1) by lia.
+    rewrite fold_add_firstn by (rewrite skipn_length; lia).
+    apply sum_n_ext. intros k _. apply nth_skipn_add.
+  - intros [H|H].
+    + apply Nat.ltb_lt in H as ->. reflexivity.
+    + destruct (e <? s); auto. destruct (Nat.leb_spec (length v) s); auto.
+      apply Nat.leb_le in H as ->. reflexivity.
+Qed.
+
+Lemma vsum_spec_lemma (v : list T) :
+  (v <> [] -> vsum v = Ok (sum_n (length v) (fun k => nth k v zero))) /\ (v = [] -> vsum v = Panic Underflow).
+Proof.
+  split.
+  - intros Hne. unfold vsum, usub.
+    assert (1 <= length v) by (destruct v; [congruence|cbn; lia]).
+    destruct (Nat.leb_spec 1 (length v)); [|lia]. cbn [bind].
+    rewrite (proj1 (sum_slice_spec_lemma v 0 (length v - 1))) by lia.
+    f_equal. replace (length v - 1 - 0 + 1) with (length v) by lia. reflexivity.
+  - intros ->. reflexivity.
+Qed.
+
+(* product of v[s..=e]: starts from v[s], multiplies on the right in index order *)
+Fixpoint prod_from (x0 : T) (n : nat) (f : nat -> T) : T :=
+  match n with 0 => x0 | S n' => mul (prod_from x0 n' f) (f n') end.
+
+Lemma fold_mul_firstn (l : list T) n x0 : n <= length l ->
+  fold_left mul (firstn n l) x0 = prod_from x0 n (fun k => nth k l zero).
+Proof.
+  induction n as [|n IH]; intros H; [reflexivity|].
+  rewrite (firstn_S_snoc l n zero) by lia. rewrite fold_left_app. cbn [fold_left prod_from].
+  now rewrite IH by lia.
+Qed.
+
+Lemma prod_from_ext x0 n (f g : nat -> T) : (forall k, k < n -> f k = g k) -> prod_from x0 n f = prod_from x0 n g.
+Proof.
+  induction n as [|n IH]; cbn; intros H; auto.
+  rewrite IH by (intros; apply H; lia). now rewrite H by lia.
+Qed.
+
+Lemma product_slice_spec_lemma (v : list T) s e :
+  (s <= e -> e < length v ->
+     product_slice v s e = Ok (prod_from (nth s v zero) (e - s) (fun k => nth (s + 1 + k) v zero))) /\
+  (e < s \/ length v <= e -> product_slice v s e = Panic Guard).
+Proof.
+  unfold product_slice, slice. split.
+  - intros Hse He.
+    destruct (Nat.ltb_spec e s); [lia|].
+    destruct (Nat.leb_spec (length v) s); [lia|].
+    destruct (Nat.leb_spec (length v) e); [lia|].
+    rewrite (rd_ok v s zero) by lia. cbn [bind]. f_equal.
+    replace (e + 1 - (s + 1)) with (e - s) by lia.
+    rewrite fold_mul_firstn by (rewrite skipn_length; lia).
+    apply prod_from_ext. intros k _. apply nth_skipn_add.
+  - intros [H|H].
+    + apply Nat.ltb_lt in H as ->. reflexivity.
+    + destruct (e <? s); auto. destruct (Nat.leb_spec (length v) s); auto.
+      apply Nat.leb_le in H as ->. reflexivity.
+Qed.
+
+(* ------------------------------------------------------------------ element-wise operators, pointwise *)
+Lemma nth_zipw (f : T -> T -> T) (u w : list T) i : i < length u -> i < length w ->
+  nth i (zipw f u w) zero = f (nth i u zero) (nth i w zero).
+Proof.
+  revert w i; induction u as [|x u IH]; intros [|y w] i Hu Hw; cbn in Hu, Hw; try lia.
+  destruct i as [|i]; [reflexivity|]. unfold zipw in *. cbn. apply IH; lia.
+Qed.
+
+Lemma nth_map_lt (f : T -> T) (u : list T) i : i < length u -> nth i (map f u) zero = f (nth i u zero).
+Proof.
+  revert i; induction u as [|x u IH]; intros i H; cbn in H; [lia|].
+  destruct i as [|i]; [reflexivity|]. cbn. apply IH; lia.
+Qed.
+
+(* &u + &w, &u - &w: defined exactly on equal sizes, then entry i is u[i] op w[i]; unary minus, the scalar
+   forms and abs entry by entry (the compound assignments are the same functions) *)
+Lemma elementwise_spec_lemma (u w : list T) (c : T) :
+  (length u = length w -> exists s d, vadd u w = Ok s /\ vsub u w = Ok d /\ length s = length u /\ length d = length u /\
+      forall i, i < length u -> nth i s zero = add (nth i u zero) (nth i w zero) /\
+                                nth i d zero = sub (nth i u zero) (nth i w zero)) /\
+  (length u <> length w -> vadd u w = Panic Guard /\ vsub u w = Panic Guard) /\
+  (length (vneg u) = length u /\ length (vscale u c) = length u /\ length (vscale_l c u) = length u /\
+   length (vabs u) = length u /\ length (vadd_scalar u c) = length u /\ length (vsub_scalar u c) = length u) /\
+  (forall i, i < length u ->
+      nth i (vneg u) zero = neg (nth i u zero) /\ nth i (vscale u c) zero = mul (nth i u zero) c /\
+      nth i (vscale_l c u) zero = mul c (nth i u zero) /\ nth i (vabs u) zero = abs (nth i u zero) /\
+      nth i (vadd_scalar u c) zero = add (nth i u zero) c /\ nth i (vsub_scalar u c) zero = sub (nth i u zero) c).
+Proof.
+  split; [|split; [|split]].
+  - intros L. unfold vadd, vsub. rewrite L, Nat.eqb_refl. do 2 eexists. split; [reflexivity|]. split; [reflexivity|].
+    unfold zipw at 1 2. rewrite !map_length, !combine_length. split; [lia|]. split; [lia|].
+    intros i Hi. split; apply nth_zipw; lia.
+  - intros L. unfold vadd, vsub. apply Nat.eqb_neq in L as ->. auto.
+  - unfold vneg, vscale, vscale_l, vabs, vadd_scalar, vsub_scalar. now rewrite !map_length.
+  - intros i Hi. unfold vneg, vscale, vscale_l, vabs, vadd_scalar, vsub_scalar.
+    repeat split; now apply nth_map_lt.
+Qed.
+
+Lemma vadd_inv (u v s : list T) : vadd u v = Ok s -> length u = length v /\ s = zipw add u v.
+Proof.
+  unfold vadd. destruct (Nat.eqb_spec (length u) (length v)) as [L|L]; [|discriminate].
+  intros E. split; [exact L|]. now injection E.
+Qed.
+
+End Generic.
+
+(* ------------------------------------------------------------------ dot product over a ring *)
+Section DotRing.
+Local Open Scope arith_scope.
+Context {A : Arith}.
+Hypothesis RL : RingLaws A.
+Notation T := (T A).
+Add Ring ARingV : (rl_ring A RL).
+
+(* right-fold form of the sum of products *)
+Fixpoint dsum (u w : list T) : T :=
+  match u, w with
+  | x :: u', y :: w' => x * y + dsum u' w'
+  | _, _ => zero
+  end.
+
+Lemma dot_from_dsum z (u w : list T) : dot_from z u w = z + dsum u w.
+Proof.
+  unfold dot_from. revert z w; induction u as [|x u IH]; intros z [|y w]; cbn; try ring.
+  rewrite IH. ring.
+Qed.
+
+Lemma dot_raw_dsum (u w : list T) : dot_raw u w = dsum u w.
+Proof. change (dot_from zero u w = dsum u w). rewrite dot_from_dsum. ring. Qed.
+
+Lemma dsum_sym (u w : list T) : dsum u w = dsum w u.
+Proof. revert w; induction u as [|x u IH]; intros [|y w]; cbn; auto. rewrite IH. ring. Qed.
+
+Lemma dsum_add_l (u u' w : list T) : length u = length u' ->
+  dsum (zipw add u u') w = dsum u w + dsum u' w.
+Proof.
+  revert u' w; induction u as [|x u IH]; intros [|x' u'] w H; cbn in H; try discriminate.
+  - cbn. ring.
+  - destruct w as [|y w]; unfold zipw; cbn; [ring|]. fold (zipw add u u'). rewrite IH by lia. ring.
+Qed.
+
+Lemma dsum_sub_l (u u' w : list T) : length u = length u' ->
+  dsum (zipw sub u u') w = dsum u w - dsum u' w.
+Proof.
+  revert u' w; induction u as [|x u IH]; intros [|x' u'] w H; cbn in H; try discriminate.
+  - cbn. ring.
+  - destruct w as [|y w]; unfold zipw; cbn; [ring|]. fold (zipw sub u u'). rewrite IH by lia. ring.
+Qed.
+
+Lemma dsum_scale_l (u w : list T) c : dsum (vscale u c) w = c * dsum u w.
+Proof.
+  revert w; induction u as [|x u IH]; intros [|y w]; unfold vscale; cbn; try ring.
+  fold (vscale u c). rewrite IH. ring.
+Qed.
+
+Lemma dsum_neg_l (u w : list T) : dsum (vneg u) w = - dsum u w.
+Proof.
+  revert w; induction u as [|x u IH]; intros [|y w]; unfold vneg; cbn; try ring.
+  fold (vneg u). rewrite IH. ring.
+Qed.
+
+Lemma zipw_length (f : T -> T -> T) (u w : list T) : length (zipw f u w) = Nat.min (length u) (length w).
+Proof. unfold zipw. now rewrite map_length, combine_length. Qed.
+
+(* symmetric, for all inputs (the size guard is symmetric as well) *)
+Lemma dot_sym_lemma (u w : list T) : dot u w = dot w u.
+Proof.
+  unfold dot. rewrite (Nat.eqb_sym (length w)). destruct (length u =? length w); auto.
+  f_equal. rewrite !dot_raw_dsum. apply dsum_sym.
+Qed.
+
+(* defined exactly on equal sizes *)
+Lemma dot_defined_lemma (u w : list T) :
+  (length u = length w -> dot u w = Ok (dot_raw u w)) /\ (length u <> length w -> dot u w = Panic Guard).
+Proof.
+  unfold dot. split; intros H.
+  - now rewrite H, Nat.eqb_refl.
+  - apply Nat.eqb_neq in H as ->. reflexivity.
+Qed.
+
+(* bilinear: additive and homogeneous in the first argument; by symmetry in the second *)
+Lemma dot_bilinear_lemma (u u' w : list T) (c : T) :
+  length u = length u' -> length u = length w ->
+  (exists s, vadd u u' = Ok s /\ dot s w = Ok (dot_raw u w + dot_raw u' w)) /\
+  (exists d, vsub u u' = Ok d /\ dot d w = Ok (dot_raw u w - dot_raw u' w)) /\
+  dot (vscale u c) w = Ok (c * dot_raw u w) /\
+  dot (vneg u) w = Ok (- dot_raw u w) /\
+  (exists s, vadd u u' = Ok s /\ dot w s = Ok (dot_raw w u + dot_raw w u')) /\
+  dot w (vscale u c) = Ok (c * dot_raw w u).
+Proof.
+  intros H1 H2.
+  assert (Ls : length (zipw add u u') = length w) by (rewrite zipw_length; lia).
+  assert (Ld : length (zipw sub u u') = length w) by (rewrite zipw_length; lia).
+  assert (Lc : length (vscale u c) = length w) by (unfold vscale; now rewrite map_length).
+  assert (Ln : length (vneg u) = length w) by (unfold vneg; now rewrite map_length).
+  unfold vadd, vsub. rewrite H1, Nat.eqb_refl.
+  split; [|split; [|split; [|split; [|split]]]].
+  - eexists; split; [reflexivity|]. rewrite (proj1 (dot_defined_lemma _ _) Ls). f_equal.
+    rewrite !dot_raw_dsum. now apply dsum_add_l.
+  - eexists; split; [reflexivity|]. rewrite (proj1 (dot_defined_lemma _ _) Ld). f_equal.
+    rewrite !dot_raw_dsum. now apply dsum_sub_l.
+  - rewrite (proj1 (dot_defined_lemma _ _) Lc). f_equal. rewrite !dot_raw_dsum. apply dsum_scale_l.
+  - rewrite (proj1 (dot_defined_lemma _ _) Ln). f_equal. rewrite !dot_raw_dsum. apply dsum_neg_l.
+  - eexists; split; [reflexivity|]. rewrite dot_sym_lemma. rewrite (proj1 (dot_defined_lemma _ _) Ls). f_equal.
+    rewrite !dot_raw_dsum. rewrite (dsum_sym w u), (dsum_sym w u'). now apply dsum_add_l.
+  - rewrite dot_sym_lemma. rewrite (proj1 (dot_defined_lemma _ _) Lc). f_equal.
+    rewrite !dot_raw_dsum. rewrite (dsum_sym w u). apply dsum_scale_l.
+Qed.
+
+End DotRing.
+
+(* ------------------------------------------------------------------ linspace over a field *)
+(* what `n as f64` must satisfy in the abstract: 0 ↦ 0, successor ↦ +1, and no positive count is 0
+   (characteristic 0).  Met by INR over R and by inject_Z over Qc; a Section hypothesis, never an assumption
+   of the development. *)
+Record OfNatLaws (F : SArith) : Prop := {
+  on_0 : @of_nat F 0 = zero;
+  on_S : forall n, @of_nat F (S n) = add (of_nat n) one;
+  on_nz : forall n, @of_nat F (S n) <> zero;
+}.
+
+Section Linspace.
+Local Open Scope arith_scope.
+Context {F : SArith}.
+Variable FL : FieldLaws F.
+Hypothesis ON : OfNatLaws F.
+Notation T := (T F).
+Notation inv := (fl_inv F FL).
+Add Field AFieldV : (fl_field F FL).
+
+Lemma of_nat_pred n : 1 <= n -> @of_nat F n - one = of_nat (n - 1)%nat.
+Proof.
+  intros H. destruct n as [|n]; [lia|]. rewrite (on_S F ON). replace (S n - 1)%nat with n by lia. ring.
+Qed.
+
+Lemma eqb_false_of_neq (x y : T) : x <> y -> eqb x y = false.
+Proof. intros H. destruct (eqb x y) eqn:E; auto. apply (fl_eqb F FL) in E. contradiction. Qed.
+
+Lemma linspace_ok (a b : T) n : 2 <= n ->
+  linspace a b n = Ok (map (fun i => a + ((b - a) * inv (of_nat (n - 1)%nat)) * of_nat i) (seq 0 n)).
+Proof.
+  intros Hn. unfold linspace. rewrite (fl_div F FL). rewrite of_nat_pred by lia.
+  destruct (n - 1)%nat as [|k] eqn:Ek; [lia|].
+  rewrite eqb_false_of_neq by (apply (on_nz F ON)). reflexivity.
+Qed.
+
+Lemma linspace_ends_lemma (a b : T) n : 2 <= n ->
+  exists l, linspace a b n = Ok l /\ length l = n /\ hd zero l = a /\ last l zero = b.
+Proof.
+  intros Hn. rewrite linspace_ok by exact Hn. eexists; split; [reflexivity|].
+  split; [now rewrite map_length, seq_length|].
+  destruct n as [|[|k]]; try lia. split.
+  - cbn [seq map hd]. rewrite (on_0 F ON). ring.
+  - rewrite seq_S, map_app. cbn [map]. rewrite last_last. cbn [plus].
+    replace (S (S k) - 1)%nat with (S k) by lia.
+    field. apply (on_nz F ON).
+Qed.
+
+(* vector / scalar over a field: a zero divisor panics (on a non-empty vector: the first element divides first),
+   otherwise entry i is v[i] * s^-1; the empty vector divides by anything *)
+Lemma vdiv_spec_lemma (v : list T) (s : T) :
+  (s <> zero -> vdiv v s = Ok (map (fun x => x * inv s) v)) /\
+  (s = zero -> v <> [] -> vdiv v s = Panic DivZero) /\
+  (v = [] -> vdiv v s = Ok []).
+Proof.
+  unfold vdiv. split; [|split].
+  - intros Hs. induction v as [|x t IH]; cbn [mapM map]; auto.
+    rewrite (fl_div F FL), (eqb_false_of_neq s zero Hs). cbn [bind]. rewrite IH. reflexivity.
+  - intros -> Hne. destruct v as [|x t]; [congruence|]. cbn [mapM].
+    rewrite (fl_div F FL). assert (E : eqb (@zero F) zero = true) by (now apply (fl_eqb F FL)).
+    rewrite E. reflexivity.
+  - intros ->. reflexivity.
+Qed.
+
+End Linspace.
+
+(* ------------------------------------------------------------------ edit histories refine lists *)
+Section Refine.
+Context {A : Arith}.
+Notation T := (T A).
+Variable sorter : list T -> list T.
+
+(* the contract of Vec::sort_unstable_by(partial_cmp): some sorted permutation *)
+Definition le_rel (x y : T) : Prop := leb x y = true.
+Definition sorter_ok : Prop := forall l, Permutation (sorter l) l /\ Sorted le_rel (sorter l).
+
+Notation "v @ i" := (nth i v zero) (at level 9, i at level 9, format "v @ i").
+
+(* Pointwise ("textbook") specification of one step: what the answer must be, as a function of the list before.
+   Every editing operation of the property text has its full specification, including the exact condition
+   under which it panics and with which class; the remaining operations are specified as far as the state
+   is concerned (value-returning: state unchanged; compound assignments: size guard and length). *)
+Definition step_spec (v : list T) (o : vop A) (r : res (list T * vval A)) : Prop :=
+  match o with
+  | VPush x => exists v', r = Ok (v', (@RNone A)) /\ length v' = S (length v) /\
+                 (forall i, i < length v -> v'@i = v@i) /\ v'@(length v) = x
+  | VPushFront x => exists v', r = Ok (v', (@RNone A)) /\ length v' = S (length v) /\
+                 v'@0 = x /\ (forall i, i < length v -> v'@(S i) = v@i)
+  | VInsert pos x =>
+      (pos <= length v -> exists v', r = Ok (v', (@RNone A)) /\ length v' = S (length v) /\
+          (forall i, i < pos -> v'@i = v@i) /\ v'@pos = x /\
+          (forall i, pos <= i < length v -> v'@(S i) = v@i)) /\
+      (length v < pos -> r = Panic Index)
+  | VPop =>
+      (v <> [] -> exists v', r = Ok (v', RS (v@(length v - 1))) /\ length v' = length v - 1 /\
+          (forall i, i < length v - 1 -> v'@i = v@i)) /\
+      (v = [] -> r = Panic Unwrap)
+  | VSwap i j =>
+      (i < length v /\ j < length v -> exists v', r = Ok (v', (@RNone A)) /\ length v' = length v /\
+          v'@i = v@j /\ v'@j = v@i /\ (forall k, k <> i -> k <> j -> v'@k = v@k)) /\
+      (length v <= i \/ length v <= j -> r = Panic Index)
+  | VResize n => exists v', r = Ok (v', (@RNone A)) /\ length v' = n /\
+                 (forall i, i < n -> v'@i = if i <? length v then v@i else zero)
+  | VAssign x => exists v', r = Ok (v', (@RNone A)) /\ length v' = length v /\ (forall i, i < length v -> v'@i = x)
+  | VClear => r = Ok ([], (@RNone A))
+  | VSort => exists v', r = Ok (v', (@RNone A)) /\ Permutation v' v /\ Sorted le_rel v'
+  | VFind x =>
+      (forall k, k < length v -> eqb v@k x = true -> (forall i, i < k -> eqb v@i x = false) -> r = Ok (v, RN k)) /\
+      ((forall i, i < length v -> eqb v@i x = false) -> v <> [] -> r = Ok (v, RN (length v - 1))) /\
+      (v = [] -> r = Panic Underflow)
+  | VSet i x =>
+      (i < length v -> exists v', r = Ok (v', (@RNone A)) /\ length v' = length v /\ v'@i = x /\
+          (forall k, k <> i -> v'@k = v@k)) /\
+      (length v <= i -> r = Panic Index)
+  | VGet i => (i < length v -> r = Ok (v, RS v@i)) /\ (length v <= i -> r = Panic Index)
+  | VSize => r = Ok (v, RN (length v))
+  | VAddAssign w | VSubAssign w =>
+      (length v = length w -> exists v', r = Ok (v', (@RNone A)) /\ length v' = length v) /\
+      (length v <> length w -> r = Panic Guard)
+  | VAddAssignS _ | VSubAssignS _ | VMulAssignS _ =>
+      exists v', r = Ok (v', (@RNone A)) /\ length v' = length v
+  | VDivAssignS _ => forall v' x, r = Ok (v', x) -> length v' = length v
+  | VCloneMut x => exists v', r = Ok (v', (@RNone A)) /\ length v' = S (length v)
+  | _ => forall v' x, r = Ok (v', x) -> v' = v              (* &self operations: the vector is unchanged *)
+  end.
+
+Lemma nth_insert_lt (v : list T) pos x i : pos <= length v -> i < pos ->
+  (firstn pos v ++ x :: skipn pos v)@i = v@i.
+Proof.
+  intros Hp Hi. rewrite app_nth1 by (rewrite firstn_length; lia). now apply nth_firstn_lt.
+Qed.
+
+Lemma nth_insert_eq (v : list T) pos x : pos <= length v -> (firstn pos v ++ x :: skipn pos v)@pos = x.
+Proof.
+  intros Hp. rewrite app_nth2 by (rewrite firstn_length; lia).
+  rewrite firstn_length. replace (pos - Nat.min pos (length v)) with 0 by lia. reflexivity.
+Qed.
+
+Lemma nth_insert_gt (v : list T) pos x i : pos <= i < length v ->
+  (firstn pos v ++ x :: skipn pos v)@(S i) = v@i.
+Proof.
+  intros Hi. rewrite app_nth2 by (rewrite firstn_length; lia).
+  rewrite firstn_length. replace (S i - Nat.min pos (length v)) with (S (i - pos)) by lia.
+  cbn [nth]. rewrite nth_skipn_add. f_equal. lia.
+Qed.
+
+Lemma vpop_spec (v : list T) :
+  (v <> [] -> exists v', vpop v = Ok (v', v@(length v - 1)) /\ length v' = length v - 1 /\
+      (forall i, i < length v - 1 -> v'@i = v@i)) /\
+  (v = [] -> vpop v = Panic Unwrap).
+Proof.
+  split; [|intros ->; reflexivity].
+  intros Hne. destruct (exists_last Hne) as (l & x & ->).
+  unfold vpop. rewrite rev_unit. rewrite rev_involutive. exists l.
+  rewrite app_length. cbn [length]. replace (length l + 1 - 1) with (length l) by lia.
+  rewrite nth_rev_last. split; [reflexivity|]. split; [reflexivity|].
+  intros i Hi. now rewrite app_nth1 by lia.
+Qed.
+
+Lemma find_first_spec (v : list T) x base :
+  match find_first v x base with
+  | Some r => exists k, r = base + k /\ k < length v /\ eqb v@k x = true /\ forall i, i < k -> eqb v@i x = false
+  | None => forall i, i < length v -> eqb v@i x = false
+  end.
+Proof.
+  revert base; induction v as [|h t IH]; intros base; cbn [find_first].
+  - intros i Hi; cbn in Hi; lia.
+  - destruct (eqb h x) eqn:E.
+    + exists 0. split; [lia|]. split; [cbn; lia|]. split; [exact E|]. intros i Hi; lia.
+    + specialize (IH (S base)). destruct (find_first t x (S base)) as [r|].
+      * destruct IH as (k & -> & Hk & Hkx & Hlt). exists (S k). split; [lia|]. split; [cbn; lia|].
+        split; [exact Hkx|]. intros [|i] Hi; cbn; auto. apply Hlt; lia.
+      * intros [|i] Hi; cbn; auto. apply IH. cbn in Hi; lia.
+Qed.
+
+Lemma vfind_spec (v : list T) x :
+  (forall k, k < length v -> eqb v@k x = true -> (forall i, i < k -> eqb v@i x = false) -> vfind v x = Ok k) /\
+  ((forall i, i < length v -> eqb v@i x = false) -> v <> [] -> vfind v x = Ok (length v - 1)) /\
+  (v = [] -> vfind v x = Panic Underflow).
+Proof.
+  unfold vfind. pose proof (find_first_spec v x 0) as H.
+  split; [|split].
+  - intros k Hk Hkx Hlt. destruct (find_first v x 0) as [r|].
+    + destruct H as (k' & -> & Hk' & Hk'x & Hlt'). cbn. f_equal.
+      destruct (Nat.lt_trichotomy k k') as [L|[E|L]]; auto.
+      * rewrite (Hlt' k L) in Hkx. discriminate.
+      * rewrite (Hlt k' L) in Hk'x. discriminate.
+    + rewrite (H k Hk) in Hkx. discriminate.
+  - intros Hnone Hne. destruct (find_first v x 0) as [r|].
+    + destruct H as (k' & -> & Hk' & Hk'x & _). rewrite (Hnone k' Hk') in Hk'x. discriminate.
+    + unfold usub. destruct v; [congruence|]. cbn. reflexivity.
+  - intros ->. reflexivity.
+Qed.
+
+Lemma vswap_spec (v : list T) i j :
+  (i < length v /\ j < length v -> exists v', vswap v i j = Ok v' /\ length v' = length v /\
+      v'@i = v@j /\ v'@j = v@i /\ (forall k, k <> i -> k <> j -> v'@k = v@k)) /\
+  (length v <= i \/ length v <= j -> vswap v i j = Panic Index).
+Proof.
+  unfold vswap. split.
+  - intros [Hi Hj]. rewrite (rd_ok v i zero), (rd_ok v j zero) by lia. cbn [bind].
+    rewrite upd_ok by lia. cbn [bind]. rewrite upd_ok by (rewrite upd_list_length; lia).
+    eexists; split; [reflexivity|]. rewrite !upd_list_length. split; [reflexivity|].
+    split; [|split].
+    + rewrite nth_upd_list by (rewrite upd_list_length; lia).
+      destruct (Nat.eqb_spec i j) as [->|Hne]; auto.
+      rewrite nth_upd_list by lia. now rewrite Nat.eqb_refl.
+    + rewrite nth_upd_list by (rewrite upd_list_length; lia). now rewrite Nat.eqb_refl.
+    + intros k Hki Hkj. rewrite nth_upd_list by (rewrite upd_list_length; lia).
+      destruct (Nat.eqb_spec k j); [contradiction|]. rewrite nth_upd_list by lia.
+      destruct (Nat.eqb_spec k i); [contradiction|]. reflexivity.
+  - intros [H|H].
+    + now rewrite rd_panic.
+    + destruct (rd v i) as [a|k] eqn:E; cbn [bind].
+      * now rewrite rd_panic.
+      * unfold rd in E. destruct (nth_error v i); [discriminate|]. now injection E as <-.
+Qed.
+
+Lemma vresize_spec (v : list T) n :
+  length (vresize v n) = n /\ forall i, i < n -> (vresize v n)@i = if i <? length v then v@i else zero.
+Proof.
+  unfold vresize. split.
+  - rewrite app_length, firstn_length, repeat_length. lia.
+  - intros i Hi. destruct (Nat.ltb_spec i (length v)).
+    + rewrite app_nth1 by (rewrite firstn_length; lia). now apply nth_firstn_lt.
+    + rewrite app_nth2 by (rewrite firstn_length; lia). rewrite firstn_length.
+      apply nth_repeat_lt. lia.
+Qed.
+
+Lemma nth_map_const {X Y} (l : list X) (x d : Y) i : i < length l -> nth i (map (fun _ => x) l) d = x.
+Proof. revert i; induction l as [|h t IH]; intros [|i] H; cbn in *; auto; try lia. apply IH; lia. Qed.
+
+Lemma step_refines (Hs : sorter_ok) (v : list T) (o : vop A) : step_spec v o (vstep sorter v o).
+Proof.
+  destruct o; cbn [step_spec vstep].
+  - (* push *) exists (vpush v x). unfold vpush. rewrite app_length. cbn [length].
+    split; [reflexivity|]. split; [lia|]. split.
+    + intros i Hi. now rewrite app_nth1.
+    + apply nth_rev_last.
+  - (* push_front *) exists (x :: v). repeat split; auto.
+  - (* insert *) unfold vinsert. split.
+    + intros Hp. apply Nat.leb_le in Hp as Hb. rewrite Hb. cbn [bind].
+      eexists; split; [reflexivity|]. split.
+      * rewrite app_length. cbn [length]. rewrite firstn_length, skipn_length. lia.
+      * split; [intros i Hi; now apply nth_insert_lt|]. split; [now apply nth_insert_eq|].
+        intros i Hi. now apply nth_insert_gt.
+    + intros Hp. destruct (Nat.leb_spec pos (length v)); [lia|]. reflexivity.
+  - (* pop *) destruct (vpop_spec v) as [H1 H2]. split.
+    + intros Hne. destruct (H1 Hne) as (v' & E & L & N). rewrite E. cbn [bind fst snd]. exists v'. auto.
+    + intros E. rewrite (H2 E). reflexivity.
+  - (* swap *) destruct (vswap_spec v i j) as [H1 H2]. split.
+    + intros Hij. destruct (H1 Hij) as (v' & E & R). rewrite E. cbn [bind]. exists v'. auto.
+    + intros Hij. rewrite (H2 Hij). reflexivity.
+  - (* resize *) destruct (vresize_spec v n) as [L N]. exists (vresize v n). auto.
+  - (* assign *) exists (vassign v x). unfold vassign. rewrite map_length. repeat split; auto.
+    intros i Hi. now apply nth_map_const.
+  - (* clear *) reflexivity.
+  - (* sort *) destruct (Hs v) as [P S]. exists (sorter v). auto.
+  - (* find *) destruct (vfind_spec v x) as (H1 & H2 & H3). split; [|split].
+    + intros k Hk Hkx Hlt. now rewrite (H1 k Hk Hkx Hlt).
+    + intros Hn Hne. now rewrite (H2 Hn Hne).
+    + intros E. now rewrite (H3 E).
+  - (* set *) unfold vset. split.
+    + intros Hi. rewrite upd_ok by lia. cbn [bind]. eexists; split; [reflexivity|].
+      rewrite upd_list_length. split; [reflexivity|]. split.
+      * rewrite nth_upd_list by lia. now rewrite Nat.eqb_refl.
+      * intros k Hk. rewrite nth_upd_list by lia. destruct (Nat.eqb_spec k i); [contradiction|reflexivity].
+    + intros Hi. unfold upd. destruct (Nat.ltb_spec i (length v)); [lia|]. reflexivity.
+  - (* add_assign *) unfold vadd_assign, vadd. split; intros H.
+    + rewrite H, Nat.eqb_refl. cbn [bind]. eexists; split; [reflexivity|].
+      unfold zipw. rewrite map_length, combine_length. lia.
+    + apply Nat.eqb_neq in H as ->. reflexivity.
+  - (* sub_assign *) unfold vsub_assign, vsub. split; intros H.
+    + rewrite H, Nat.eqb_refl. cbn [bind]. eexists; split; [reflexivity|].
+      unfold zipw. rewrite map_length, combine_length. lia.
+    + apply Nat.eqb_neq in H as ->. reflexivity.
+  - eexists; split; [reflexivity|]. unfold vadd_scalar. now rewrite map_length.
+  - eexists; split; [reflexivity|]. unfold vsub_scalar. now rewrite map_length.
+  - eexists; split; [reflexivity|]. unfold vmul_scalar, vscale. now rewrite map_length.
+  - (* div_assign_s *) intros v' r E. apply bind_ok in E as (y & E1 & E2). injection E2 as <- _.
+    unfold vdiv_scalar, vdiv in E1. apply mapM_length in E1. exact E1.
+  - (* get *) unfold vget. split; intros H.
+    + now rewrite (rd_ok v i zero) by lia.
+    + now rewrite rd_panic.
+  - reflexivity.
+  - intros v' r E. apply bind_ok in E as (y & _ & E2). now injection E2 as <- _.
+  - intros v' r E. apply bind_ok in E as (y & _ & E2). now injection E2 as <- _.
+  - intros v' r E. apply bind_ok in E as (y & _ & E2). now injection E2 as <- _.
+  - intros v' r E. apply bind_ok in E as (y & _ & E2). now injection E2 as <- _.
+  - intros v' r E. apply bind_ok in E as (y & _ & E2). now injection E2 as <- _.
+  - intros v' r E. apply bind_ok in E as (y & _ & E2). now injection E2 as <- _.
+  - intros v' r E. apply bind_ok in E as (y & _ & E2). now injection E2 as <- _.
+  - intros v' r E. now injection E as <- _.
+  - intros v' r E. now injection E as <- _.
+  - intros v' r E. apply bind_ok in E as (y & _ & E2). now injection E2 as <- _.
+  - intros v' r E. now injection E as <- _.
+  - intros v' r E. now injection E as <- _.
+  - (* clone_mut *) exists (vpush v x). unfold vpush. rewrite app_length. cbn [length]. split; [reflexivity|lia].
+Qed.
+
+(* the sorter used to RUN the model meets the contract whenever the order is total *)
+Lemma insert_by_perm (le : T -> T -> bool) x l : Permutation (insert_by le x l) (x :: l).
+Proof.
+  induction l as [|h t IH]; cbn [insert_by]; auto.
+  destruct (le x h); auto. apply perm_trans with (h :: x :: t); [now apply perm_skip|apply perm_swap].
+Qed.
+
+Lemma isort_perm (le : T -> T -> bool) l : Permutation (isort le l) l.
+Proof.
+  induction l as [|h t IH]; cbn; auto. unfold isort in *. cbn [fold_right].
+  apply perm_trans with (h :: fold_right (insert_by le) [] t); [apply insert_by_perm|now apply perm_skip].
+Qed.
+
+Lemma insert_by_sorted (le : T -> T -> bool) (Htot : forall x y, le x y = true \/ le y x = true) x l :
+  Sorted (fun a b => le a b = true) l -> Sorted (fun a b => le a b = true) (insert_by le x l).
+Proof.
+  induction l as [|h t IH]; intros Hs; cbn [insert_by].
+  - repeat constructor.
+  - destruct (le x h) eqn:E.
+    + constructor; auto.
+    + inversion Hs as [|? ? Hst Hh]; subst. constructor; [now apply IH|].
+      assert (Hhx : le h x = true) by (destruct (Htot x h) as [H|H]; [congruence|exact H]).
+      destruct t as [|h2 t2]; cbn [insert_by].
+      * constructor. exact Hhx.
+      * destruct (le x h2); constructor; auto. inversion Hh; auto.
+Qed.
+
+Lemma isort_sorter_ok (Htot : forall x y : T, leb x y = true \/ leb y x = true) :
+  forall l, Permutation (isort leb l) l /\ Sorted le_rel (isort leb l).
+Proof.
+  intros l. split; [apply isort_perm|]. unfold le_rel.
+  induction l as [|h t IH]; cbn; [constructor|]. unfold isort in *. cbn [fold_right].
+  now apply insert_by_sorted.
+Qed.
+
+(* every step of every history satisfies its specification; the state is threaded as in [vrun_state]
+   (a panicking operation leaves the vector as it was) *)
+Fixpoint run_spec (v : list T) (ops : list (vop A)) : Prop :=
+  match ops with
+  | [] => True
+  | o :: t => step_spec v o (vstep sorter v o) /\
+              run_spec (match vstep sorter v o with Ok (v', _) => v' | Panic _ => v end) t
+  end.
+
+Lemma vec_run_refines_lemma (Hs : sorter_ok) (ops : list (vop A)) (v : list T) : run_spec v ops.
+Proof.
+  revert v; induction ops as [|o t IH]; intros v; cbn [run_spec]; auto.
+  split; [now apply step_refines|apply IH].
+Qed.
+
+Lemma vrun_state_cons (v : list T) o t :
+  vrun_state sorter v (o :: t) =
+  vrun_state sorter (match vstep sorter v o with Ok (v', _) => v' | Panic _ => v end) t.
+Proof. unfold vrun_state. cbn [fold_left]. destruct (vstep sorter v o) as [[v' r]|k]; reflexivity. Qed.
+
+End Refine.
+
